@@ -134,8 +134,10 @@ class WorkLoad(ResourceConstraint):
                     durations.append(dur)
 
             if not resource_assigned:
-                raise AssertionError(
-                    "The resource is not assigned to any task. Please first assign the resource to one or more tasks, and then add the WorkLoad constraint."
+                self._refuse(
+                    AssertionError(
+                        "The resource is not assigned to any task. Please first assign the resource to one or more tasks, and then add the WorkLoad constraint."
+                    )
                 )
 
             # workload constraint depends on the kind
@@ -195,8 +197,10 @@ class ResourceUnavailable(ResourceConstraint):
                     )
 
         if not resource_assigned:
-            raise AssertionError(
-                "The resource is not assigned to any task. Please first assign the resource to one or more tasks, and then add the ResourceUnavailable constraint."
+            self._refuse(
+                AssertionError(
+                    "The resource is not assigned to any task. Please first assign the resource to one or more tasks, and then add the ResourceUnavailable constraint."
+                )
             )
 
 
@@ -279,8 +283,10 @@ class ResourcePeriodicallyUnavailable(ResourceConstraint):
                     self.set_z3_assertions(z3.Or(*conds))
 
         if not resource_assigned:
-            raise AssertionError(
-                "The resource is not assigned to any task. Please first assign the resource to one or more tasks, and then add the ResourcePeriodicallyUnavailable constraint."
+            self._refuse(
+                AssertionError(
+                    "The resource is not assigned to any task. Please first assign the resource to one or more tasks, and then add the ResourcePeriodicallyUnavailable constraint."
+                )
             )
 
 
@@ -387,8 +393,10 @@ class ResourceInterrupted(ResourceConstraint):
             self.set_z3_assertions(z3.And(*conds))
 
         if not resource_assigned:
-            raise AssertionError(
-                "The resource is not assigned to any task. Please first assign the resource to one or more tasks, and then add the ResourceInterrupted constraint."
+            self._refuse(
+                AssertionError(
+                    "The resource is not assigned to any task. Please first assign the resource to one or more tasks, and then add the ResourceInterrupted constraint."
+                )
             )
 
 
@@ -462,8 +470,10 @@ class ResourcePeriodicallyInterrupted(ResourceConstraint):
                 ) in self.list_of_time_intervals:
                     # intervals need to be defined in one period
                     if interval_upper_bound > self.period:
-                        raise AssertionError(
-                            f"interval ({interval_lower_bound}, {interval_upper_bound}) exceeds period {self.period}"
+                        self._refuse(
+                            AssertionError(
+                                f"interval ({interval_lower_bound}, {interval_upper_bound}) exceeds period {self.period}"
+                            )
                         )
 
                     # if true, the folded task overlaps with the time interval in the first period
@@ -562,8 +572,10 @@ class ResourcePeriodicallyInterrupted(ResourceConstraint):
             self.set_z3_assertions(z3.And(*conds))
 
         if not resource_assigned:
-            raise AssertionError(
-                "The resource is not assigned to any task. Please first assign the resource to one or more tasks, and then add the ResourcePeriodicallyInterrupted constraint."
+            self._refuse(
+                AssertionError(
+                    "The resource is not assigned to any task. Please first assign the resource to one or more tasks, and then add the ResourcePeriodicallyInterrupted constraint."
+                )
             )
 
 
@@ -582,8 +594,10 @@ class ResourceNonDelay(ResourceConstraint):
             ends.append(end_var)
 
         if not starts:
-            raise AssertionError(
-                "The resource is not assigned to any task. Please first assign the resource to one or more tasks, and then add the ResourceNonDelay constraint."
+            self._refuse(
+                AssertionError(
+                    "The resource is not assigned to any task. Please first assign the resource to one or more tasks, and then add the ResourceNonDelay constraint."
+                )
             )
 
         # sort both lists
@@ -632,8 +646,10 @@ class ResourceTasksDistance(ResourceConstraint):
 
         # check that the resource is assigned to at least two tasks
         if len(starts) < 2:
-            raise AssertionError(
-                "The resource has to be assigned to at least 2 tasks. ResourceTasksDistance constraint meaningless."
+            self._refuse(
+                AssertionError(
+                    "The resource has to be assigned to at least 2 tasks. ResourceTasksDistance constraint meaningless."
+                )
             )
 
         # sort both lists
